@@ -33,7 +33,7 @@ def run(rep, tier, seed):
     flow.run_gen(rep, {'Brownian'}, seed, 20 if tier == 'quick' else 200)
     flow.run_proofs(rep, PROOFS, extra_scan=['Tsv.Gen.Brownian', 'Tsv.Model.Brownian', 'Tsv.Model.Agg'])
     # C04Model speaks about the tree / find / valueAt of the hand-written object model: tie it to the real class here too
-    c = corr_bm.run(random.Random(seed + 5), 5 if tier == 'quick' else 40, 90 if tier == 'quick' else 250)
+    c = corr_bm.run(random.Random(seed + 5), 6 if tier == 'quick' else 40, 130 if tier == 'quick' else 250)
     rep.ob('correspondence:brownian-model', f"{c.get('configs', 0)} objects / {c.get('queries', 0)} queries", c['ok'],
            json.dumps(c.get('mismatches') or c.get('error', ''), default=str)[:1800])
     rep.cov['correspondence'] = {k: v for k, v in c.items() if k != 'mismatches'}
